@@ -4,9 +4,14 @@ import AslModel.Spec.Robust
 # C03 — the utilities' code-file reader is total, exact and classifies as the format demands
 
 What is a theorem here: statements about `PFileRead.readFile`, the transcription of the record loop of
-plist/pbind/p2bin/p2hex (all configurations `Cfg`).  What is *not* a theorem: memory safety and liveness
-of the C programs themselves — that half of C03 is exploration (sanitizer build, generated inputs) and is
-labelled so in the evidence.
+plist/pbind/p2bin/p2hex (all configurations `Cfg`) as it stands after the repairs of `ReadRecordHeader`
+("unexpected end of file"), `SkipRecord` (forward-only seek) and `ReadRelocInfo` (validated).  Every byte string
+is classified with a definite exit status: accepted (the tool goes on, 0 as far as the reader is concerned) or
+format error 3; the only other outcome is `ChkIO`'s status 2 where `errno` is stale from the program's start-up
+(environment flags `errnoMagic` / `errnoLoop` of the configuration, measured on the real binaries) - there is no
+"2 or 3" and no undefined class any more.  What is *not* a theorem: memory safety and liveness of the C programs
+themselves — that half of C03 is exploration (sanitizer build, generated inputs) and is labelled so in the
+evidence.
 -/
 namespace AslModel.PFileRead
 open AslModel.PFile AslModel.Robust
@@ -28,7 +33,56 @@ theorem C03_reader_total (cfg : Cfg) (bs : List Byte) :
     · split at h
       · exact readRecs_fuel cfg _ _ (Nat.lt_succ_self _) h
       · cases h
-    · cases h
+    · split at h <;> cases h
+
+/-- Every byte string has a definite predicted exit status: 0 exactly when the reader accepts, otherwise 3
+(`FormatError`) - or 2, and that only in a configuration whose `errno` is stale (`ChkIO`).  The classes "I/O error
+or format error, whichever" and "undefined" of the reader before the repairs are gone. -/
+theorem C03_reader_status_definite (cfg : Cfg) (bs : List Byte) :
+    (exitStatus (readFile cfg bs) = 0 ∧ ∃ rs, readFile cfg bs = .ok rs) ∨
+    (Rejected cfg (readFile cfg bs) ∧ ∃ e, readFile cfg bs = .error e ∧ e ≠ .fuel) := by
+  rcases C03_reader_total cfg bs with ⟨rs, h⟩ | ⟨e, h, he⟩
+  · exact Or.inl ⟨by rw [h]; rfl, rs, h⟩
+  · refine Or.inr ⟨?_, e, h, he⟩
+    by_cases hio : e = .io
+    · subst hio
+      exact Or.inr ⟨by rw [h]; rfl, readFile_io cfg bs h⟩
+    · refine Or.inl ?_
+      rw [h]
+      cases e <;> first | rfl | exact absurd rfl hio
+
+/-- With a clean `errno` (plist; the processing passes of pbind/p2bin/p2hex after their `errno = 0`) the
+classification has two classes: accepted, or exit status 3. -/
+theorem C03_reader_status_clean_errno (cfg : Cfg) (hm : cfg.errnoMagic = false) (hl : cfg.errnoLoop = false)
+    (bs : List Byte) :
+    (exitStatus (readFile cfg bs) = 0 ∧ ∃ rs, readFile cfg bs = .ok rs) ∨ exitStatus (readFile cfg bs) = 3 := by
+  rcases C03_reader_status_definite cfg bs with h | ⟨h, _⟩
+  · exact Or.inl h
+  · exact Or.inr (h.clean hm hl)
+
+/-- The one place where the C code goes on with stale variables (the file ends inside the CPU/Segment/Gran
+bytes of a record the tool interprets): whatever these variables hold, the data branch ends in a format error
+whose message is one of the documented ones - never an acceptance, never the fuel class. -/
+theorem C03_reader_stale_header_any_values (cfg : Cfg) (cpu seg gran : Byte) (len : Nat) :
+    (dataAtEof cfg cpu seg gran len).status = 3 ∧ dataAtEof cfg cpu seg gran len ≠ .fuel ∧
+    ((dataAtEof cfg cpu seg gran len).msg = some .invRecordHeader ∨
+     (dataAtEof cfg cpu seg gran len).msg = some .invRecordLen ∨
+     (dataAtEof cfg cpu seg gran len).msg = some .unexpectedEof) := by
+  refine ⟨?_, ?_, ?_⟩
+  · unfold dataAtEof
+    split
+    · rename_i e he
+      rcases preCheck_err _ _ _ _ _ he with h | h | h <;> subst h <;> rfl
+    · split <;> rfl
+  · unfold dataAtEof
+    split
+    · rename_i e he; intro hh; subst hh; exact preCheck_nofuel _ _ _ _ he
+    · split <;> simp
+  · unfold dataAtEof
+    split
+    · rename_i e he
+      rcases preCheck_err _ _ _ _ _ he with h | h | h <;> subst h <;> simp [ToolErr.msg]
+    · split <;> simp [ToolErr.msg]
 
 /-- An accepted file is *exactly* the concatenation of the records the reader returns: every byte is
 consumed once, none is skipped, none is invented (so nothing beyond the end was read). -/
@@ -47,12 +101,12 @@ theorem C03_reader_exact (cfg : Cfg) (bs : List Byte) (rs : List Record)
 
 /-- Every well-formed file (SPEC reader accepts) is accepted by the tool's loop with the same content,
 provided the creator string leaves the bytes the tool's length test wants (`slack ≤ |creator| + 1`:
-always true for plist and the measuring passes, `creator ≠ ""` for pbind/p2bin/p2hex) and the tool's
-family/granularity pre-checks pass. -/
+true for every tool since `fix: accept code files whose creator string is empty`) and the tool's header tests
+(granularity, segment number, family) pass. -/
 theorem C03_reader_accepts_wellformed (cfg : Cfg) (hd : 0x81 ≤ cfg.dataUpTo) (bs : List Byte)
     (is : List Item) (cr : List Byte) (h : parseFile bs = some (is, cr))
     (hs : cfg.slack ≤ cr.length + 1)
-    (hpre : ∀ r ∈ dataRecs is, preCheck cfg r.cpu r.gran = .ok ()) :
+    (hpre : ∀ r ∈ dataRecs is, preCheck cfg r.cpu r.seg r.gran = .ok ()) :
     ∃ rs, readFile cfg bs = .ok rs ∧ toItems rs = some (is, cr) := by
   unfold parseFile at h
   split at h
@@ -62,9 +116,8 @@ theorem C03_reader_accepts_wellformed (cfg : Cfg) (hd : 0x81 ≤ cfg.dataUpTo) (
   · cases h
 
 /-- Whatever the reader accepts and consists of documented record kinds only is well formed with that
-content; so a malformed file is either rejected or contains a reserved header kind (`$82..$ff`) that the
-tools skip. -/
-theorem C03_reader_rejects_malformed (cfg : Cfg) (bs : List Byte) (rs : List Record)
+content. -/
+theorem C03_reader_sound (cfg : Cfg) (bs : List Byte) (rs : List Record)
     (x : List Item × List Byte) (h : readFile cfg bs = .ok rs) (ht : toItems rs = some x) :
     parseFile bs = some x := by
   unfold readFile at h
@@ -77,20 +130,26 @@ theorem C03_reader_rejects_malformed (cfg : Cfg) (bs : List Byte) (rs : List Rec
     · cases h
   · cases h
 
-/-- Classification, for a reader without family/granularity pre-checks whose length test wants at most
-one following byte (plist, MeasureFile): it returns a documented record list `x` **iff** the file is well
-formed with content `x`. -/
-theorem C03_reader_classifies (cfg : Cfg) (hd : 0x81 ≤ cfg.dataUpTo) (hs : cfg.slack ≤ 1)
-    (hf : cfg.famCheck = false) (hg : cfg.granCheck = false) (bs : List Byte) (x : List Item × List Byte) :
-    (∃ rs, readFile cfg bs = .ok rs ∧ toItems rs = some x) ↔ parseFile bs = some x := by
-  constructor
-  · rintro ⟨rs, h, ht⟩
-    exact C03_reader_rejects_malformed cfg bs rs x h ht
-  · intro h
-    obtain ⟨is, cr⟩ := x
-    refine C03_reader_accepts_wellformed cfg hd bs is cr h (by omega) ?_
-    intro r _
-    simp [preCheck, hf, hg]
+/-- **A file that is not well formed is rejected by every tool** (exit status 3; 2 only under a stale `errno`) -
+unless it is accepted because all that is wrong with it are record kinds outside the documented grammar
+(`$82..$ff`), which the tools skip (plist lists `$82..$85`). -/
+theorem C03_reader_rejects_malformed (cfg : Cfg) (bs : List Byte) (h : ¬ WellFormed bs) :
+    Rejected cfg (readFile cfg bs) ∨
+    (∃ rs, readFile cfg bs = .ok rs ∧ ∃ r ∈ rs, r.reserved = true) := by
+  rcases C03_reader_status_definite cfg bs with ⟨_, rs, hr⟩ | ⟨h3, _⟩
+  · refine Or.inr ⟨rs, hr, ?_⟩
+    cases ht : toItems rs with
+    | some x =>
+      exfalso; apply h
+      simp [WellFormed, C03_reader_sound cfg bs rs x hr ht]
+    | none =>
+      unfold readFile at hr
+      split at hr
+      · split at hr
+        · exact readRecs_reserved cfg _ _ _ hr ht
+        · cases hr
+      · cases hr
+  · exact Or.inl h3
 
 /-- an ill-formed file is never answered with a documented record list -/
 theorem C03_reader_malformed_not_ok (cfg : Cfg) (bs : List Byte) (h : ¬ WellFormed bs) (rs : List Record)
@@ -100,17 +159,77 @@ theorem C03_reader_malformed_not_ok (cfg : Cfg) (bs : List Byte) (h : ¬ WellFor
   | some x =>
     exfalso
     apply h
-    simp [WellFormed, C03_reader_rejects_malformed cfg bs rs x hr ht]
+    simp [WellFormed, C03_reader_sound cfg bs rs x hr ht]
+
+/-- Classification, for every tool whose length test wants at most the `$00` byte behind a data record (all of
+them on the current tree): it returns a documented record list `x` **iff** the file is well formed with
+content `x` and every data record passes the tool's header tests. -/
+theorem C03_reader_classifies (cfg : Cfg) (hd : 0x81 ≤ cfg.dataUpTo) (hs : cfg.slack ≤ 1)
+    (bs : List Byte) (x : List Item × List Byte) :
+    (∃ rs, readFile cfg bs = .ok rs ∧ toItems rs = some x) ↔
+    (parseFile bs = some x ∧ ∀ r ∈ dataRecs x.1, preCheck cfg r.cpu r.seg r.gran = .ok ()) := by
+  constructor
+  · rintro ⟨rs, h, ht⟩
+    refine ⟨C03_reader_sound cfg bs rs x h ht, ?_⟩
+    obtain ⟨is, cr⟩ := x
+    unfold readFile at h
+    split at h
+    · split at h
+      · exact readRecs_prechecked cfg hd _ _ _ _ _ h ht
+      · cases h
+    · cases h
+  · rintro ⟨h, hpre⟩
+    obtain ⟨is, cr⟩ := x
+    exact C03_reader_accepts_wellformed cfg hd bs is cr h (by omega) hpre
+
+/-- **A truncated file is rejected.**  If a tool accepts `bs` with creator string `cr`, every prefix of `bs` that
+ends before the `$00` header byte of the end record - i.e. that cuts a record, ends between two records or consists
+of (part of) the magic - is rejected (exit status 3; 2 only under a stale `errno`); and when the tool rejects
+`bs`, it rejects every prefix.  (A prefix that contains the `$00` byte only shortens the creator string, whose end is the end of the
+file by definition.) -/
+theorem C03_reader_rejects_truncated (cfg : Cfg) (bs : List Byte) (n : Nat)
+    (hn : ∀ recs cr, readFile cfg bs = .ok (recs ++ [.fin cr]) → n + cr.length < bs.length) :
+    Rejected cfg (readFile cfg (bs.take n)) := by
+  rcases C03_reader_status_definite cfg (bs.take n) with ⟨_, rs, hr⟩ | ⟨h3, _⟩
+  · exfalso
+    obtain ⟨recs, cr, _, h2⟩ := readFile_extend cfg (bs.take n) (bs.drop n) rs hr
+    rw [List.take_append_drop] at h2
+    have := hn _ _ h2
+    simp only [List.length_append, List.length_drop] at this
+    omega
+  · exact h3
+
+/-- The same for a well-formed file (SPEC reader, creator `cr`), for every tool and without side conditions:
+a proper prefix that does not reach the end record's header byte is rejected - with exit status 3 when `errno`
+is clean. -/
+theorem C03_reader_rejects_truncated_wellformed (cfg : Cfg) (bs : List Byte) (is : List Item) (cr : List Byte)
+    (h : parseFile bs = some (is, cr)) (n : Nat) (hn : n + cr.length < bs.length) :
+    Rejected cfg (readFile cfg (bs.take n)) ∧
+    (cfg.errnoMagic = false → cfg.errnoLoop = false → exitStatus (readFile cfg (bs.take n)) = 3) := by
+  suffices key : Rejected cfg (readFile cfg (bs.take n)) from ⟨key, fun hm hl => key.clean hm hl⟩
+  apply C03_reader_rejects_truncated
+  intro recs cr' hr
+  have : cr' = cr := by
+    unfold parseFile at h
+    split at h
+    · rename_i rest
+      simp only [readFile, (magic_iff 0x89 0x14).mpr ⟨rfl, rfl⟩, if_true] at hr
+      obtain ⟨recs', h'⟩ := readRecs_creator cfg _ _ _ _ _ hr h
+      have := List.append_inj_right' h' rfl
+      simpa using this
+    · cases h
+  subst this
+  exact hn
 
 /-- With the guard "granularity 0 is a format error" in the reader, every division `Len / Gran` a tool
 performs on an accepted file has a non-zero divisor. -/
-theorem C03_gran_guard (cfg : Cfg) (hg : cfg.granCheck = true) (hd : 0x81 ≤ cfg.dataUpTo) (ps : Bool)
+theorem C03_gran_guard (cfg : Cfg) (hg : cfg.granCheck = true) (ps : Bool)
     (bs : List Byte) (rs : List Record) (h : readFile cfg bs = .ok rs) :
     ∃ vs, useAll cfg ps rs = .ok vs := by
   unfold readFile at h
   split at h
   · split at h
-    · exact useAll_ok cfg ps rs (readRecs_granOK cfg hg hd _ _ _ h)
+    · exact useAll_ok cfg ps rs (readRecs_granOK cfg hg _ _ _ h)
     · cases h
   · cases h
 
@@ -118,8 +237,8 @@ theorem C03_gran_guard (cfg : Cfg) (hg : cfg.granCheck = true) (hd : 0x81 ≤ cf
 def granZeroWitness : List Byte :=
   [0x89, 0x14, 0x81, 0x01, 0x01, 0x00, 0, 0, 0, 0, 1, 0, 0xaa, 0x00, 0x41, 0x53]
 
-/-- **Finding `gran-zero`**: without that guard (the unchanged tree) the witness is accepted by plist,
-p2bin and p2hex and the division traps. -/
+/-- **Finding `gran-zero`** (repaired in /repo; the guard flag is probed on the real binaries each run): without
+that guard the witness is accepted by plist, p2bin and p2hex and the division traps. -/
 theorem C03_finding_gran_zero :
     (∃ rs, readFile (cfgPlist false) granZeroWitness = .ok rs ∧ useAll (cfgPlist false) true rs = .error .divZero) ∧
     (∃ rs, readFile (cfgP2bin false) granZeroWitness = .ok rs ∧ useAll (cfgP2bin false) false rs = .error .divZero) ∧
@@ -132,6 +251,61 @@ theorem C03_finding_gran_zero :
   obtain ⟨r3, e3, p3⟩ := okAnd_elim _ _ h3
   exact ⟨⟨r1, e1, isDivZero_elim _ p1⟩, ⟨r2, e2, isDivZero_elim _ p2⟩, ⟨r3, e3, isDivZero_elim _ p3⟩⟩
 
+/-! ## the repaired relocation-record paths (were findings `plist-relocinfo-unchecked`,
+`relocinfo-negative-length-seeks-back`, `short-read-undetected`) -/
+
+/-- `$85` with `RelocCount = 1` and no entries (the former SIGSEGV witness of plist) -/
+def relocShortWitness : List Byte :=
+  [0x89, 0x14, 0x85, 1, 0, 0, 0, 0, 0, 0, 0, 0, 0, 0, 0, 0x00, 0x41, 0x53]
+
+/-- `$85` with `StringLen = $FFFFFFF3` (the former backwards seek of `SkipRecord`) -/
+def relocNegativeWitness : List Byte :=
+  [0x89, 0x14, 0x85, 0, 0, 0, 0, 0, 0, 0, 0, 0xf3, 0xff, 0xff, 0xff, 0x00, 0x41, 0x53]
+
+/-- plist answers a relocation record whose entries are not all present, whose string offsets leave the string
+area or whose string area does not end in NUL with the format error "invalid record length". -/
+theorem C03_reloc_plist_rejects_incomplete :
+    readFile (cfgPlist true) relocShortWitness = .error .badReloc ∧
+    readFile (cfgPlist true) relocNegativeWitness = .error .badReloc ∧
+    -- one relocation entry, string offset 1 in a string area of length 1
+    readFile (cfgPlist true) ([0x89, 0x14, 0x85, 1, 0, 0, 0, 0, 0, 0, 0, 1, 0, 0, 0] ++
+      [0, 0, 0, 0, 0, 0, 0, 0, 1, 0, 0, 0, 8, 0x80, 0, 0] ++ [0] ++ [0x00, 0x41]) = .error .badReloc ∧
+    -- string area "a" without the terminating NUL
+    readFile (cfgPlist true) ([0x89, 0x14, 0x85, 0, 0, 0, 0, 0, 0, 0, 0, 1, 0, 0, 0] ++ [0x61] ++ [0x00, 0x41]) = .error .badReloc := by
+  refine ⟨?_, ?_, ?_, ?_⟩ <;> exact errOf_elim _ _ (by decide)
+
+/-- The length `SkipRecord` seeks over is the exact sum `16*RelocCount + 16*ExportCount + StringLen` (no 32-bit
+wrap, never negative): a tool that skips the record accepts it exactly when that many bytes and an end record
+follow; the former witnesses of the backwards seek and of the undetected short read end with "unexpected end of
+file" in pbind, p2bin and p2hex (both passes). -/
+theorem C03_reloc_skip_forward_only (cfg : Cfg) (hp : cfg.parseReloc = false) (he : cfg.errnoLoop = false)
+    (r0 r1 r2 r3 e0 e1 e2 e3 s0 s1 s2 s3 : Byte) (rest : List Byte) :
+    step cfg (0x85 :: r0 :: r1 :: r2 :: r3 :: e0 :: e1 :: e2 :: e3 :: s0 :: s1 :: s2 :: s3 :: rest) =
+      (if rest.length < 16 * rd32 r0 r1 r2 r3 + 16 * rd32 e0 e1 e2 e3 + rd32 s0 s1 s2 s3 then .err .eof
+       else .more (.reloc [r0, r1, r2, r3, e0, e1, e2, e3, s0, s1, s2, s3]
+                    (rest.take (16 * rd32 r0 r1 r2 r3 + 16 * rd32 e0 e1 e2 e3 + rd32 s0 s1 s2 s3)))
+                  (rest.drop (16 * rd32 r0 r1 r2 r3 + 16 * rd32 e0 e1 e2 e3 + rd32 s0 s1 s2 s3))) := by
+  simp [step, relocFields, relocFull, hp, onShort, he]
+
+theorem C03_reloc_skip_witnesses :
+    readFile cfgPbind relocNegativeWitness = .error .eof ∧
+    readFile (cfgP2bin true) relocNegativeWitness = .error .eof ∧
+    readFile (cfgP2hex true) relocNegativeWitness = .error .eof ∧
+    readFile (cfgMeasureBin true) relocNegativeWitness = .error .eof ∧
+    readFile cfgPbind relocShortWitness = .error .eof := by
+  refine ⟨?_, ?_, ?_, ?_, ?_⟩ <;> exact errOf_elim _ _ (by decide)
+
+/-- A file that ends without its end record - after the magic, after a complete record, inside an entry
+record - is a format error ("unexpected end of file") in every tool whose `errno` is clean in the loop. -/
+theorem C03_missing_end_record (cfg : Cfg) (he : cfg.errnoLoop = false) :
+    readFile cfg [0x89, 0x14] = .error .eof ∧
+    (∀ a0 a1 a2 a3, readFile cfg [0x89, 0x14, 0x80, a0, a1, a2, a3] = .error .eof) ∧
+    (∀ a0 a1, readFile cfg [0x89, 0x14, 0x80, a0, a1] = .error .eof) := by
+  refine ⟨?_, ?_, ?_⟩
+  · simp [readFile, Generated.fileMagic, rd16, readRecs, step, onShort, he]
+  · intro a0 a1 a2 a3; simp [readFile, Generated.fileMagic, rd16, readRecs, step, onShort, he]
+  · intro a0 a1; simp [readFile, Generated.fileMagic, rd16, readRecs, step, onShort, he]
+
 /-! ## non-vacuity -/
 
 /-- a well-formed two-record file with entry point -/
@@ -143,22 +317,40 @@ example : WellFormed sampleFile := by decide
 example : okAnd (readFile (cfgPlist false) sampleFile) (fun rs => rs.length == 4) = true := by decide
 example : okAnd (readFile cfgPbind sampleFile) (fun rs => (toItems rs).isSome) = true := by decide
 example : okAnd (readFile (cfgP2hex false) sampleFile) (fun rs => (toItems rs).isSome) = true := by decide
--- the hypotheses of C03_reader_classifies hold for plist and the measuring passes
-example : 0x81 ≤ (cfgPlist false).dataUpTo ∧ (cfgPlist false).slack ≤ 1 := by decide
+-- the hypotheses of C03_reader_classifies hold for every tool configuration
+example : 0x81 ≤ (cfgPlist true).dataUpTo ∧ (cfgPlist true).slack ≤ 1 := by decide
+example : 0x81 ≤ cfgPbind.dataUpTo ∧ cfgPbind.slack ≤ 1 := by decide
+example : 0x81 ≤ (cfgP2hex true).dataUpTo ∧ (cfgP2hex true).slack ≤ 1 := by decide
 example : 0x81 ≤ (cfgMeasureBin false).dataUpTo ∧ (cfgMeasureBin false).slack ≤ 1 := by decide
 -- the guard is non-vacuous: with it the witness is refused as a format error, a good file still passes
 example : errOf (readFile (cfgPlist true) granZeroWitness) = some .badGran := by decide
 example : okAnd (readFile (cfgPlist true) sampleFile) (fun _ => true) = true := by decide
--- truncations of the sample are a short read or a length error; a wrong magic is a format error
-example : errOf (readFile (cfgPlist false) (sampleFile.take 29)) = some .shortRead := by decide
+-- truncations of the sample: end of file, length error, stale header - all status 3; a wrong magic is a format error
+example : errOf (readFile (cfgPlist false) (sampleFile.take 29)) = some .eof := by decide
 example : errOf (readFile (cfgPlist false) (sampleFile.take 11)) = some .badLength := by decide
+example : errOf (readFile (cfgPlist false) (sampleFile.take 14)) = some .staleHeader := by decide
+example : errOf (readFile (cfgPlist false) (sampleFile.take 19)) = some .badLength := by decide
+example : errOf (readFile (cfgMeasureBin false) (sampleFile.take 19)) = some .eof := by decide
 example : errOf (readFile (cfgPlist false) [0x89, 0x15]) = some .badMagic := by decide
--- a reserved header kind is skipped, so the SPEC reader and the tools differ exactly there
-example : okAnd (readFile cfgPbind [0x89, 0x14, 0x90, 0, 0, 0, 0, 1, 0, 7, 0x00, 0x41]) (fun rs => (toItems rs).isNone) = true := by
+example : errOf (readFile (cfgPlist false) [0x89]) = some .badMagic := by decide
+-- C03_reader_rejects_truncated_wellformed is not vacuous: the sample is well formed with a 2-byte creator
+example : parseFile sampleFile = some ([.data ⟨0x51, 1, 1, 0x100, [1, 2, 3]⟩, .data ⟨0x31, 2, 1, 0x20, [0xaa, 0xbb]⟩, .entry 0x100], [0x41, 0x53]) := by
   decide
--- with slack 2 (pbind/p2bin/p2hex before fix 721957a; the harness measures the value on the real binaries each
--- run) an empty creator after a data record is refused (finding of C05/C07); with slack 1 (plist) it is not
-example : errOf (readFile cfgPbind [0x89, 0x14, 0x51, 0, 0, 0, 0, 1, 0, 7, 0x00]) = some .badLength := by decide
-example : okAnd (readFile (cfgPlist false) [0x89, 0x14, 0x51, 0, 0, 0, 0, 1, 0, 7, 0x00]) (fun _ => true) = true := by decide
+example : ∀ n ∈ List.range 30, exitStatus (readFile (cfgP2bin true) (sampleFile.take n)) = 3 := by decide
+-- under a stale errno (p2bin's measuring pass as the harness runs it) the end-of-file cases are status 2, the others 3
+example : (List.range 30).map (fun n => exitStatus (readFile { cfgMeasureBin true with errnoMagic := true, errnoLoop := true } (sampleFile.take n))) =
+    [2, 2, 2, 2, 2, 2, 2, 2, 2, 3, 3, 3, 2, 2, 2, 2, 2, 2, 2, 2, 2, 2, 3, 3, 2, 2, 2, 2, 2, 2] := by decide
+-- ... and a prefix that contains the end record's header byte is still accepted (shorter creator)
+example : okAnd (readFile (cfgP2bin true) (sampleFile.take 30)) (fun _ => true) = true := by decide
+-- a reserved header kind is skipped, so the SPEC reader and the tools differ exactly there
+example : okAnd (readFile cfgPbind [0x89, 0x14, 0x90, 0, 0, 0, 0, 1, 0, 7, 0x00, 0x41]) (fun rs => (toItems rs).isNone && rs.any Record.reserved) = true := by
+  decide
+-- a segment number outside the table is a format error for plist and p2hex, not for pbind and p2bin
+example : errOf (readFile (cfgPlist true) [0x89, 0x14, 0x81, 0x51, 0xff, 1, 0, 0, 0, 0, 1, 0, 7, 0x00]) = some .badSeg := by decide
+example : okAnd (readFile cfgPbind [0x89, 0x14, 0x81, 0x51, 0xff, 1, 0, 0, 0, 0, 1, 0, 7, 0x00]) (fun _ => true) = true := by decide
+-- an empty creator after a data record is accepted by every tool (slack 1); a valid relocation record by plist
+example : okAnd (readFile cfgPbind [0x89, 0x14, 0x51, 0, 0, 0, 0, 1, 0, 7, 0x00]) (fun _ => true) = true := by decide
+example : okAnd (readFile (cfgPlist true) ([0x89, 0x14, 0x85, 1, 0, 0, 0, 0, 0, 0, 0, 2, 0, 0, 0] ++
+      [0, 0, 0, 0, 0, 0, 0, 0, 0, 0, 0, 0, 8, 0x80, 0, 0] ++ [0x61, 0] ++ [0x00, 0x41])) (fun rs => rs.length == 2) = true := by decide
 
 end AslModel.PFileRead
